@@ -27,6 +27,17 @@ CHECKS = {
         "date arithmetic facts (contracts/dt.py, cross-checked natively), results within year 1..9999; stored values are value-class instances "
         "(type invariant); _get_start_end_duration and is_date are inlined.",
    technique="contract-based deductive verification: AST->z3 VCs (pyvc), helper contracts proved against bodies, statement-level postconditions per getter/setter; bounded stand-in"),
+ "C15": dict(
+   category="proof", design_ref="DESIGN.md section 8 C15",
+   text="AlarmTime.acknowledged / trigger / is_active are symbolically executed with every optional instant absent or present as an "
+        "unconstrained integer instant, so all orderings incl. equalities are covered at once; proved: acknowledged is the later of the "
+        "present acknowledgements, the snoozed trigger rule, is_active returns exactly the statement's disjunction and raises only "
+        "LocalTimezoneMissing and only for floating (naive or date) triggers; monotonicity as a lemma over that contract; "
+        "Alarms.add_component wires X-MOZ-LASTACK/X-MOZ-SNOOZE-TIME for Thunderbird components and DTSTAMP otherwise; `active` is a filter "
+        "of `times`. Decision table and Event/Todo integration on the real objects are a labelled bounded stand-in.",
+   note="Trusted: aware datetimes compare by instant, naive-vs-aware ordering raises TypeError (cross-checked natively); UTC property "
+        "descriptors return None or an aware UTC datetime; tzinfo is None iff floating; comprehension rule for Alarms.active.",
+   technique="contract-based deductive verification: AST->z3 VCs (pyvc) over integer instants, lemma over contracts; bounded stand-in"),
 }
 NA_REASON = "check not built yet (build round in progress; DESIGN.md section 8 describes the planned contracts)"
 
